@@ -31,7 +31,7 @@ ANCHORS = [
     "acnportal.acnsim.network.charging_network:ChargingNetwork.is_feasible",
 ]
 REQUIRED = ["accepted_schedules_judged", "boundary_points", "vertex_points", "structure_walks", "site:caltech", "site:caltech-via-deprecated-alias", "site:jpl", "site:office001",
-            "evse:basic", "evse:real", "cap:default", "cap:scaled", "cap:zero", "sim_columns_judged", "linear_mode_points", "multi_period_matrices", "multi_period_accepted", "transformer_power_within_1pct_of_rating",
+            "evse:basic", "evse:real", "cap:default", "cap:scaled", "cap:zero", "sim_columns_judged", "linear_mode_points", "multi_period_matrices", "multi_period_accepted", "long_plans_with_one_overloading_column", "transformer_power_within_1pct_of_rating",
             "panel_or_pod_binding"]
 BUDGET_S = {"quick": 240, "thorough": 3000}
 VLL = 120.0 * math.sqrt(3.0)
@@ -313,6 +313,22 @@ def run_case(case, obs):
                 for j in range(T):
                     judge_schedule(obs, net, W, ids, ang, [float(x) for x in S[:, j]], dict(wit, periods=T, column=j, linear=lin),
                                    "multi-period schedule, period %d of %d" % (j, T))
+    # ---- plans of hundreds to thousands of periods, idle except for ONE overloading column, placed at the end, at the start and
+    # on both sides of block seams: if the network accepts such a plan, that column is judged like any accepted schedule
+    if over_pts and case["seed"] % 3 == 0:
+        Tl = rng.choice([300, 1025, 1500, 2500, 4100])
+        pos = sorted({0, Tl - 1, Tl - 2, Tl // 2} | {x + dx for x in (128, 256, 512, 1000, 1024, 2048, 4096) for dx in (-1, 0) if x < Tl})
+        S = np.zeros((n, Tl))
+        for _ in range(1):
+            c = over_pts[rng.randrange(len(over_pts))]
+            for p_ in pos:
+                S[:, p_] = c
+                for lin in (False, True):
+                    obs.ev("long_plans_with_one_overloading_column")
+                    if bool(net.is_feasible(S, linear=lin)):
+                        judge_schedule(obs, net, W, ids, ang, [float(x) for x in c], dict(wit, periods=Tl, column=p_, linear=lin),
+                                       "plan of %d periods, idle except period %d" % (Tl, p_))
+                S[:, p_] = 0.0
     # ---- recorded rates of a real simulation on the site
     if case.get("sim"):
         sim_columns(case, obs, site, basic, caps, W, rng, wit)
